@@ -49,6 +49,7 @@ def shards(tier):
             out.append(("map", t, [0, 21, 42, 63], [0, 5, 10, 15, 20, 25, 30, 31]))
     out.append(("forms",))
     out.append(("occflags",))
+    out.append(("userclasses",))
     for first in range(len(MAP_OPS)):
         out.append(("mapops", first, 3 if tier == "quick" else 4))
     return out
@@ -218,6 +219,43 @@ def run_shard(shard):
         if dmap.mapping != snap:
             add_violation(res, "C12:map-mutated", "decoding changed the map", {"t": "map", "v": 0x8000, "map": str(t)})
         sample(res, {"map_type": t, "shorts": shorts[:4], "inums": inums[:4], "frames": n})
+    elif k == "userclasses":
+        # an application that declares event classes of its own (an abstract vendor base without an instance type - the shape
+        # of the library's own _PushbuttonEvent -, a concrete class for an unassigned type, a subclass of UnknownEvent) and
+        # then decodes: the library's frames decode as before, device/instance frames without a map entry stay ambiguous
+        from dali.device import general as DG
+        from dali.device.helpers import DeviceInstanceTypeMapper
+
+        class _VendorEvent(DG._Event):
+            pass
+
+        class VendorUnknown(DG.UnknownEvent):
+            pass
+        empty = DeviceInstanceTypeMapper()
+        noentry = DeviceInstanceTypeMapper()
+        noentry.add_type(short_address=1, instance_number=7, instance_type=1)
+        full = DeviceInstanceTypeMapper()
+        for s_ in (0, 5, 63):
+            for i_ in (0, 9, 31):
+                full.add_type(short_address=s_, instance_number=i_, instance_type=3)
+        n = 0
+        for s_ in (0, 5, 63):
+            for i_ in (0, 9, 31):
+                for data in (0, 1, 5, 0x155, 1023):
+                    v = (s_ << 17) | (1 << 15) | (i_ << 10) | data
+                    for mk, dmap, mt in (("nomap", None, "nomap"), ("empty", empty, None), ("noentry", noentry, None), (3, full, 3)):
+                        d, got = check_event(res, v, dmap, mt, mk, from_frame, FF, "userclasses", {"t": "userclasses", "v": v, "map": str(mk)})
+                        n += 1
+                        if d is not None and mt in ("nomap", None):
+                            r2 = d.retry_decode(full) if hasattr(d, "retry_decode") else None
+                            if r2 is None or R.describe(r2) != R.decode24(v, 3):
+                                add_violation(res, "C12:userclasses:retry", f"frame {v:#08x} map={mk}: retry_decode with a full map gives {r2}", {"t": "userclasses", "v": v, "map": str(mk)})
+        for v in (0x0A0402, 0x0A0C0B, 0x0A1155, 0x8E0401, 0xC00C10, 0xC08401, 0x0A2523, 0x000400):
+            check_event(res, v, None, "nomap", "nomap", from_frame, FF, "userclasses", {"t": "userclasses", "v": v, "map": "nomap"})
+            n += 1
+        res["evaluations"] += n
+        res["distinct"].add(("userclasses", "ok"))
+        sample(res, {"user_declared_event_classes": ["_VendorEvent(_Event)", "VendorUnknown(UnknownEvent)"], "decodes": n})
     elif k == "occflags":
         # all 16 occupancy flag tuples x 5 schemes x sources of the flag tuple (literal strings, strings built at run time, a
         # pickled and a copied tuple): the event built from the tuple carries the 10 bits the flags denote, and decoding that
@@ -372,6 +410,8 @@ def replay(case):
         return [x for x in vs if x["case"].get("ops") == case["ops"]] or vs
     else:
         return run_shard(("forms",))["violations"]
+    if case.get("t") == "userclasses":
+        return run_shard(("userclasses",))["violations"]
     if case.get("t") == "occflags":
         return run_shard(("occflags",))["violations"]
     return res["violations"]
